@@ -7,6 +7,7 @@ import (
 	"encoding/asn1"
 	"encoding/json"
 	"fmt"
+	"math/big"
 	"math/rand"
 	"os"
 	"runtime"
@@ -400,6 +401,71 @@ func c07Intake(c *vk.Ctx, cases []rdCase, hostile [][]byte, rng *rand.Rand) int 
 		func() {
 			defer func() { recover() }()
 			w.Destroy()
+		}()
+		// ... and what a hostile document leaves behind for the NEXT operation: under "verify" a list named by a certificate's
+		// distribution point is in force; a refresh brings a well-formed list that cannot be verified (the CA rolled its key over),
+		// the next refresh brings hostile bytes, then the certificate is presented again. Nothing of that may take the handshake down.
+		ca := pki.NewCA(pki.CAOpts{Name: "Hostile Intake CA", Serial: 770})
+		rolled := pki.NewCA(pki.CAOpts{Name: "Hostile Intake CA", Serial: 771})
+		path2 := "/hostile/cdp.crl"
+		leaf := ca.Leaf(pki.LeafOpts{CN: "bystander", Serial: big.NewInt(772), CDP: []string{org.URL + path2}})
+		chain := pki.Chain(leaf.Cert, ca)
+		w2, err := world.New(world.Cfg{Mode: "crl_only", Storage: backendName(disk), Sig: "verify", Fetch: "fetch_actively", Interval: "1h"})
+		if err != nil {
+			c.Infra("world: %v", err)
+		}
+		if err := w2.Provision(); err != nil {
+			c.Infra("C07 intake: provision: %v", err)
+		}
+		pass := func() string {
+			done := make(chan string, 1)
+			go func() {
+				defer func() {
+					if p := recover(); p != nil {
+						done <- fmt.Sprintf("%v\n%s", p, debug.Stack())
+						return
+					}
+					done <- ""
+				}()
+				w2.RefreshAll()
+			}()
+			select {
+			case p := <-done:
+				return p
+			case <-time.After(60 * time.Second):
+				return "no termination within 60 s"
+			}
+		}
+		for i, body := range hostile {
+			if i >= c.Pick(40, 400) || c.Violations() > 12 {
+				break
+			}
+			org.SetBody(path2, ca.SimpleCRL(int64(10+3*i), 990010))
+			first := w2.HandshakeTimeout(chain, 60*time.Second)
+			p0 := pass()
+			org.SetBody(path2, rolled.SimpleCRL(int64(11+3*i), 990011))
+			p1 := pass()
+			org.SetBody(path2, body)
+			p2 := pass()
+			after := w2.HandshakeTimeout(chain, 60*time.Second)
+			n++
+			c.Eval(fmt.Sprintf("intake-aftermath|%s|%d", backendName(disk), i))
+			rep := map[string]any{"backend": backendName(disk), "hostile_index": i, "input_len": len(body), "handshake_before": first, "handshake_after": after}
+			if len(body) <= 4096 {
+				rep["input_hex"] = fmt.Sprintf("%x", body)
+			}
+			for _, p := range []string{p0, p1, p2} {
+				if p != "" {
+					c.Violation("intake:aftermath:pass-panic", "a refresh pass of the sequence good list / unverifiable list / hostile bytes panicked or did not end: "+p, rep)
+				}
+			}
+			if after.Verdict == "panic" || after.Verdict == "hang" {
+				c.Violation("intake:aftermath:handshake-"+after.Verdict, "after a refresh to a well-formed but unverifiable list and a refresh to hostile bytes, the next handshake that names the location ended with "+after.Verdict+": "+after.Panic, rep)
+			}
+		}
+		func() {
+			defer func() { recover() }()
+			w2.Destroy()
 		}()
 		org.Close()
 	}
